@@ -535,6 +535,146 @@ impl FriProof {
     }
 }
 
+// ---------------------------------------------------------------------------------------------------------------------
+// FriProofLayer::parse (fri/src/proof.rs, C03 / C05 / C06): the canonical decoder of one FRI layer. For every byte content of
+// the two vectors and every folding factor: Ok exactly when the value bytes are a positive whole number nq of queries
+// (length a multiple of ELEMENT_BYTES * folding_factor), decode to nq * folding_factor elements with nothing left over, and the
+// path bytes decode - with nothing left over - to a batch Merkle proof for the leaves hash_elements(query 0), hash_elements(query 1),
+// .. at depth log2(domain_size); the results are those elements (query-major) and that proof. No overflow, no out-of-range index.
+// Literal rewrites (listed): the loop `for query_hash in hashed_queries.iter_mut() { .. *query_hash = h; .. }` is written with an
+// index (`for qi in 0..hashed_queries.len()`, `hashed_queries.set(qi, h)`: the installed Verus has no iter_mut);
+// `vec![H::Digest::default(); n]` becomes the shim default_digests(n) (n digests); error texts are dropped.
+pub struct FriProofLayer { pub values: Vec<u8>, pub paths: Vec<u8> }
+#[verifier::external_body]
+pub fn default_digests(n: usize) -> (r: Vec<Dg>) ensures r@.len() == n { unimplemented!() }
+
+proof fn lemma_dec_split(s: Seq<u8>, a: nat, b: nat)
+    ensures
+        dec_many(s, a + b) == (match dec_many(s, a) {
+            None => None::<(Seq<T>, Seq<u8>)>,
+            Some((xs, r)) => match dec_many(r, b) {
+                None => None,
+                Some((ys, r2)) => Some((xs + ys, r2)),
+            },
+        }),
+    decreases a
+{
+    if a == 0 {
+        match dec_many(s, b) { None => {}, Some((ys, r2)) => { assert(Seq::<T>::empty() + ys =~= ys); } }
+    } else {
+        assert((a + b - 1) as nat == (a - 1) as nat + b);
+        match dec_t(s) {
+            None => {},
+            Some((x, r1)) => {
+                lemma_dec_split(r1, (a - 1) as nat, b);
+                match dec_many(r1, (a - 1) as nat) {
+                    None => {},
+                    Some((xs, r)) => match dec_many(r, b) {
+                        None => {},
+                        Some((ys, r2)) => { assert(seq![x] + (xs + ys) =~= (seq![x] + xs) + ys); },
+                    },
+                }
+            },
+        }
+    }
+}
+proof fn lemma_dec_len(s: Seq<u8>, n: nat)
+    requires dec_many(s, n) is Some
+    ensures dec_many(s, n)->Some_0.0.len() == n
+    decreases n
+{
+    if n > 0 {
+        let r1 = dec_t(s)->Some_0.1;
+        lemma_dec_len(r1, (n - 1) as nat);
+    }
+}
+
+pub open spec fn layer_ok(l: FriProofLayer, domain_size: usize, ff: usize) -> bool {
+    let q = elem_bytes() as int * ff as int;
+    let nq = l.values@.len() as int / q;
+    &&& l.values@.len() as int % q == 0
+    &&& nq >= 1
+    &&& dec_many(l.values@, (nq * ff) as nat) is Some
+    &&& dec_many(l.values@, (nq * ff) as nat)->Some_0.1.len() == 0
+    &&& bmp_dec(l.paths@, row_hashes(dec_many(l.values@, (nq * ff) as nat)->Some_0.0, nq as nat, ff as nat), ilog2_spec(domain_size) as u8) is Some
+    &&& bmp_dec(l.paths@, row_hashes(dec_many(l.values@, (nq * ff) as nat)->Some_0.0, nq as nat, ff as nat), ilog2_spec(domain_size) as u8)->Some_0.1.len() == 0
+}
+
+impl FriProofLayer {
+    //@@ source fri/src/proof.rs
+    //@@ extract anchor="pub fn parse<H, E>(" within="impl FriProofLayer"
+    //@@ rewrite-re "(?s)DeserializationError::InvalidValue\(format!\(.*?\)\)\)" => "DeserializationError::InvalidValue(err_text()))"
+    //@@ rewrite-re "(?s)DeserializationError::InvalidValue\(\s*\"[^\"]*\"\.to_string\(\),\s*\)" => "DeserializationError::InvalidValue(err_text())"
+    //@@ rewrite "E::ELEMENT_BYTES" => "E::element_bytes()"
+    //@@ rewrite "vec![H::Digest::default(); num_queries]" => "default_digests(num_queries)"
+    //@@ rewrite "for query_hash in hashed_queries.iter_mut() {" => "for qi in 0..hashed_queries.len() {"
+    //@@ rewrite "*query_hash = H::hash_elements(&qe);" => "hashed_queries.set(qi, HH::hash_elements(&qe));"
+    //@@ rewrite "domain_size.ilog2()" => "ilog2(domain_size)"
+    //@@ before "let mut hashed_queries"
+    //@@|        proof {
+    //@@|            let q = elem_bytes() as int * folding_factor as int;
+    //@@|            assert(num_queries as int * q <= self.values@.len()) by (nonlinear_arith) requires num_queries as int == self.values@.len() as int / q, q >= 1;
+    //@@|            assert(num_queries as int * folding_factor as int <= num_queries as int * q) by (nonlinear_arith) requires q == elem_bytes() as int * folding_factor as int, elem_bytes() >= 1, num_queries >= 0, folding_factor >= 1;
+    //@@|        }
+    //@@ before "let mut reader = SliceReader::new(&self.paths)"
+    //@@|        proof {
+    //@@|            assert(hashed_queries@ =~= row_hashes(query_values@, num_queries as nat, folding_factor as nat));
+    //@@|        }
+    //@@ itername 1 it
+    //@@ loop 1
+    //@@|            invariant
+    //@@|                folding_factor >= 1, num_queries >= 1, hashed_queries@.len() == num_queries,
+    //@@|                it.iter.end == num_queries, 0 <= qi <= num_queries,
+    //@@|                num_queries as int == self.values@.len() as int / (elem_bytes() as int * folding_factor as int),
+    //@@|                self.values@.len() as int % (elem_bytes() as int * folding_factor as int) == 0,
+    //@@|                query_values@.len() == qi * folding_factor,
+    //@@|                dec_many(self.values@, (qi * folding_factor) as nat) == Some((query_values@, reader.rem@)),
+    //@@|                forall|j: int| 0 <= j < qi ==> #[trigger] hashed_queries@[j] == hash_elements_of(query_values@.subrange(j * folding_factor, (j + 1) * folding_factor)),
+    //@@ loopstart 1
+    //@@|            let ghost qv0 = query_values@;
+    //@@|            let ghost rem0 = reader.rem@;
+    //@@|            proof {
+    //@@|                lemma_dec_split(self.values@, (qi * folding_factor) as nat, folding_factor as nat);
+    //@@|                assert((qi + 1) * folding_factor == qi * folding_factor + folding_factor) by (nonlinear_arith);
+    //@@|                // a failure here is a failure of the whole decoding: nq * ff = (qi + 1) * ff + the rest
+    //@@|                lemma_dec_split(self.values@, ((qi + 1) * folding_factor) as nat, ((num_queries - qi - 1) * folding_factor) as nat);
+    //@@|                assert((qi + 1) * folding_factor + (num_queries - qi - 1) * folding_factor == num_queries * folding_factor) by (nonlinear_arith);
+    //@@|                assert((num_queries - qi - 1) * folding_factor >= 0) by (nonlinear_arith) requires num_queries - qi - 1 >= 0, folding_factor >= 1;
+    //@@|            }
+    //@@ loopend 1
+    //@@|            proof {
+    //@@|                assert(query_values@ =~= qv0 + dec_many(rem0, folding_factor as nat)->Some_0.0);
+    //@@|                lemma_dec_len(rem0, folding_factor as nat);
+    //@@|                assert forall|j: int| 0 <= j < qi + 1 implies #[trigger] hashed_queries@[j] == hash_elements_of(query_values@.subrange(j * folding_factor, (j + 1) * folding_factor)) by {
+    //@@|                    assert(j * folding_factor + folding_factor == (j + 1) * folding_factor) by (nonlinear_arith);
+    //@@|                    if j < qi {
+    //@@|                        assert((j + 1) * folding_factor <= qi * folding_factor) by (nonlinear_arith) requires j + 1 <= qi, folding_factor >= 1;
+    //@@|                        assert(j * folding_factor >= 0) by (nonlinear_arith) requires j >= 0, folding_factor >= 1;
+    //@@|                        assert(query_values@.subrange(j * folding_factor, (j + 1) * folding_factor) =~= qv0.subrange(j * folding_factor, (j + 1) * folding_factor));
+    //@@|                    } else {
+    //@@|                        assert(query_values@.subrange(j * folding_factor, (j + 1) * folding_factor) =~= dec_many(rem0, folding_factor as nat)->Some_0.0);
+    //@@|                    }
+    //@@|                }
+    //@@|            }
+    pub fn parse(self, domain_size: usize, folding_factor: usize) -> (r: Result<(Vec<T>, BatchMerkleProof), DeserializationError>)
+        requires
+            domain_size >= 1, 1 <= folding_factor <= 0x1_0000_0000, 1 <= elem_bytes() <= 64,
+        ensures
+            r is Ok <==> layer_ok(self, domain_size, folding_factor),
+            r is Ok ==> {
+                let nq = self.values@.len() as int / (elem_bytes() as int * folding_factor as int);
+                &&& r->Ok_0.0@ == dec_many(self.values@, (nq * folding_factor) as nat)->Some_0.0
+                &&& r->Ok_0.1 == bmp_dec(self.paths@, row_hashes(r->Ok_0.0@, nq as nat, folding_factor as nat), ilog2_spec(domain_size) as u8)->Some_0.0
+            },
+    {
+        proof {
+            assert(elem_bytes() as int * folding_factor as int <= 64 * 0x1_0000_0000) by (nonlinear_arith) requires elem_bytes() <= 64, folding_factor <= 0x1_0000_0000;
+            assert(elem_bytes() as int * folding_factor as int >= 1) by (nonlinear_arith) requires elem_bytes() >= 1, folding_factor >= 1;
+        }
+        /*@@body*/
+    }
+}
+
 proof fn oodv_canary_must_fail(b: Seq<u8>)
     requires trace_ok(b, 1)
     ensures b.len() == 1
